@@ -1,6 +1,7 @@
 import ChiaModel.Lemmas.Strict
 import ChiaModel.Lemmas.Perm
 import ChiaModel.Lemmas.PermLoop
+import ChiaModel.Lemmas.PermBundle
 /-
 C06 — strict modes only restrict, and ordering never changes the verdict.
 
@@ -13,9 +14,13 @@ that each of NO_UNKNOWN_CONDS, STRICT_ARGS_COUNT, LIMIT_SPENDS that is set in `e
 Part 2 (order of the conditions of one spend): proved for the effect of the parsed conditions
 (`applyCond`, the big `match` of `parse_conditions`: `perm_conditions_partial`), for the whole condition
 loop `condLoop` including argument parsing, cost countdown and visitor (`perm_conditions_loop_partial`) and
-for one spend (`perm_conditions_spend_partial`).  Not proved: the propagation of a reordering inside one
-spend through the remaining spends and the deferred validation of the bundle (`open_perm_conditions_bundle`),
-and the order of the spends of a bundle (`open_perm_spends`).
+for one spend (`perm_conditions_spend_partial`); these describe the per-spend state up to listing order and
+ELIGIBLE_FOR_FF.
+
+Part 3 (whole bundle, via the refinement `C01.C01_refines` to the order-free rules): the order of the
+spends of a bundle (`perm_spends`, `perm_spends_accept_iff`) and the order of the conditions of one spend
+seen through the whole of `parse_spends`, i.e. through the remaining spends and the deferred validation
+(`perm_conditions_bundle`, `perm_conditions_bundle_accept_iff`).  Lemmas: Lemmas/PermBundle.lean.
 -/
 namespace ChiaModel.C06
 open ChiaModel ChiaModel.Cond
@@ -216,42 +221,173 @@ example : NoParentId [.unknown, .known Gen.opReserveFee (.reserveFee 1)] := by
   simp only [List.mem_cons, List.mem_nil_iff, or_false] at hit
   rcases hit with rfl | rfl <;> simp
 
-/-! ### open -/
+/-! ### order of the spends of a bundle; order of the conditions of a spend, whole bundle -/
 
-/-- OPEN (not proved): the same statement for the order of the *spends* of a bundle.  If the spend
-list `t'` is a permutation of the spend list `t` and the signature verdict does not depend on the order
-of the (pk, msg) pairs, then `parseSpends` accepts `t'` whenever it accepts `t`, with the same cost and
-the same aggregates, the `spends` list being permuted accordingly (spend records compared up to
-`CEquiv`-style listing order).  Stated here for cost and the scalar aggregates. -/
-def open_perm_spends : Prop :=
-  ∀ (env : Env) (sigOk : List (Bytes × Bytes) → Bool) (t t' tl tl' : Sexp) (xs xs' : List Sexp)
-    (L cc : Nat) (b : Bundle) (st : PState),
-    (∀ pairs pairs', List.Perm pairs pairs' → sigOk pairs = sigOk pairs') →
-    sexpList t = some xs → sexpList t' = some xs' → List.Perm xs xs' →
-    parseSpends env sigOk (.pair t tl) L cc = .ok (b, st) →
+open ChiaModel.Rules in
+/-- **Order of the spends.**  Let the spend list `t'` be a permutation of the spend list `t` (the tails `tl`,
+`tl'` after the spend list are free), and let the signature verdict not depend on the order of the
+(public key, signed text) pairs (true of BLS aggregate verification).  If `parse_spends` accepts `(t . tl)`
+under cost limit `L`, it accepts `(t' . tl')` under the same limit, and the two summaries agree on
+
+* `cost`, `condition_cost`, `execution_cost`, the removal and addition amounts, `reserve_fee`, the four
+  absolute locks, the number of spends and `validated_signature`;
+* the spend records: `b'.spends` is a permutation of `b.spends` — every field of every record, including
+  the listing order inside a record and both mempool eligibility flags (a spend's record does not depend on
+  its position in the bundle);
+* the AGG_SIG_UNSAFE pairs, up to listing order.
+
+Both visitors, all flags.  (What does depend on the order: the listing order of `spends` and
+`agg_sig_unsafe`, nothing else.)  Proof: `C01.C01_refines` reduces `parse_spends` to the order-free rules
+`BundleAccepts` over the parsed spends and to the fold `bundleSummary`; parsing is per spend
+(`parseSpendList_perm`); the rules and the aggregates of the fold respect permutation
+(`bundleAccepts_bperm`, `bundleSummary_bperm`; the two index-based deferred rules — ASSERT_EPHEMERAL and "a
+spend with a relative or birth condition is not ephemeral" — are first put in index-free form,
+`eph_clauses_iff`). -/
+theorem perm_spends (env : Env) (sigOk : List (Bytes × Bytes) → Bool) (t t' tl tl' : Sexp) (xs xs' : List Sexp)
+    (L cc : Nat) (b : Bundle) (st : PState)
+    (hsig : ∀ pairs pairs', List.Perm pairs pairs' → sigOk pairs = sigOk pairs')
+    (ht : sexpList t = some xs) (ht' : sexpList t' = some xs') (hp : List.Perm xs xs')
+    (h : parseSpends env sigOk (.pair t tl) L cc = .ok (b, st)) :
     ∃ b' st', parseSpends env sigOk (.pair t' tl') L cc = .ok (b', st') ∧ b'.cost = b.cost ∧
       b'.conditionCost = b.conditionCost ∧ b'.executionCost = b.executionCost ∧
       b'.removalAmount = b.removalAmount ∧ b'.additionAmount = b.additionAmount ∧
       b'.reserveFee = b.reserveFee ∧ b'.heightAbsolute = b.heightAbsolute ∧
       b'.secondsAbsolute = b.secondsAbsolute ∧ b'.beforeHeightAbsolute = b.beforeHeightAbsolute ∧
-      b'.beforeSecondsAbsolute = b.beforeSecondsAbsolute ∧ b'.spends.length = b.spends.length
+      b'.beforeSecondsAbsolute = b.beforeSecondsAbsolute ∧ b'.spends.length = b.spends.length ∧
+      b'.validatedSignature = b.validatedSignature ∧
+      List.Perm b'.spends b.spends ∧ List.Perm b'.aggSigUnsafe b.aggSigUnsafe := by
+  obtain ⟨ps, hpb, hacc, hsum⟩ := (C01.C01_refines env sigOk _ L cc b st).mp h
+  simp only [parseBundle, ht] at hpb
+  obtain ⟨ps', hps', hperm⟩ := parseSpendList_perm env.flags hp hpb
+  have hb := BPerm.of_perm hperm
+  have hacc' := bundleAccepts_bperm env sigOk hsig L cc hb hacc
+  have hb1 : b = (bundleSummary env cc ps).1 := congrArg Prod.fst hsum
+  obtain ⟨a1, a2, a3, a4, a5, a6, a7, a8, a9, a10, a11, a12, a13⟩ := bundleSummary_bperm env cc hb
+  refine ⟨(bundleSummary env cc ps').1, (bundleSummary env cc ps').2,
+    (C01.C01_refines env sigOk _ L cc _ _).mpr ⟨ps', by simp only [parseBundle, ht', hps'], hacc', rfl⟩, ?_⟩
+  rw [hb1]
+  exact ⟨a1, a2, a3, a4, a5, a6, a7, a8, a9, a10, a11, a12, (summary_spends_perm env cc hperm).symm, a13⟩
 
-/-- OPEN (not proved): propagation of `perm_conditions_spend_partial` to the bundle — if the condition
-list of one spend is permuted, `parseSpends` accepts iff it did, with the same cost and the same scalar
-aggregates.  (Needs: the spend loop and `validate_conditions` respect equality up to listing order.) -/
-def open_perm_conditions_bundle : Prop :=
-  ∀ (env : Env) (sigOk : List (Bytes × Bytes) → Bool) (pre post : List Sexp) (parent ph amount conds conds' rest rest' tl tl' t t' : Sexp)
-    (cs cs' : List Sexp) (L cc : Nat) (b : Bundle) (st : PState),
-    (∀ pairs pairs', List.Perm pairs pairs' → sigOk pairs = sigOk pairs') →
-    sexpList conds = some cs → sexpList conds' = some cs' → List.Perm cs cs' →
-    sexpList t = some (pre ++ [.pair parent (.pair ph (.pair amount (.pair conds rest)))] ++ post) →
-    sexpList t' = some (pre ++ [.pair parent (.pair ph (.pair amount (.pair conds' rest')))] ++ post) →
-    parseSpends env sigOk (.pair t tl) L cc = .ok (b, st) →
+/-- **Acceptance does not depend on the order of the spends** (both directions). -/
+theorem perm_spends_accept_iff (env : Env) (sigOk : List (Bytes × Bytes) → Bool) (t t' tl tl' : Sexp)
+    (xs xs' : List Sexp) (L cc : Nat)
+    (hsig : ∀ pairs pairs', List.Perm pairs pairs' → sigOk pairs = sigOk pairs')
+    (ht : sexpList t = some xs) (ht' : sexpList t' = some xs') (hp : List.Perm xs xs') :
+    (∃ r, parseSpends env sigOk (.pair t tl) L cc = .ok r) ↔ (∃ r, parseSpends env sigOk (.pair t' tl') L cc = .ok r) := by
+  constructor
+  · rintro ⟨⟨b, st⟩, h⟩
+    obtain ⟨b', st', h', _⟩ := perm_spends env sigOk t t' tl tl' xs xs' L cc b st hsig ht ht' hp h
+    exact ⟨_, h'⟩
+  · rintro ⟨⟨b, st⟩, h⟩
+    obtain ⟨b', st', h', _⟩ := perm_spends env sigOk t' t tl' tl xs' xs L cc b st hsig ht' ht hp.symm h
+    exact ⟨_, h'⟩
+
+open ChiaModel.Rules in
+/-- **Order of the conditions of a spend, whole bundle.**  Let one spend of the bundle have its condition
+list permuted (`conds` → `conds'`; the tails `rest`, `rest'` of the spend tuple and `tl`, `tl'` of the
+generator output are free; the other spends `pre`, `post` are unchanged).  If `parse_spends` accepts the
+original, it accepts the variant under the same cost limit, and the two summaries agree on
+
+* `cost`, `condition_cost`, `execution_cost`, the removal and addition amounts, `reserve_fee`, the four
+  absolute locks, the number of spends and `validated_signature`; the AGG_SIG_UNSAFE pairs up to listing order;
+* the spend records: the records of all other spends are identical (every field, both eligibility flags),
+  in the same positions; the record `s'` of the permuted spend equals the original `s` on every field up to
+  the listing order of `create_coin` and of the seven `agg_sig_*` lists (`SpendEquiv`) once ELIGIBLE_FOR_FF is
+  cleared in both, and — ELIGIBLE_FOR_FF included — outright if the visitor is the empty one or no condition
+  of the spend parses to ASSERT_MY_PARENT_ID, the one condition the mempool visitor treats by its position.
+
+Both visitors, all flags. -/
+theorem perm_conditions_bundle (env : Env) (sigOk : List (Bytes × Bytes) → Bool) (pre post : List Sexp)
+    (parent ph amount conds conds' rest rest' tl tl' t t' : Sexp) (cs cs' : List Sexp) (L cc : Nat) (b : Bundle) (st : PState)
+    (hsig : ∀ pairs pairs', List.Perm pairs pairs' → sigOk pairs = sigOk pairs')
+    (hc : sexpList conds = some cs) (hc' : sexpList conds' = some cs') (hp : List.Perm cs cs')
+    (ht : sexpList t = some (pre ++ [.pair parent (.pair ph (.pair amount (.pair conds rest)))] ++ post))
+    (ht' : sexpList t' = some (pre ++ [.pair parent (.pair ph (.pair amount (.pair conds' rest')))] ++ post))
+    (h : parseSpends env sigOk (.pair t tl) L cc = .ok (b, st)) :
     ∃ b' st', parseSpends env sigOk (.pair t' tl') L cc = .ok (b', st') ∧ b'.cost = b.cost ∧
-      b'.conditionCost = b.conditionCost ∧ b'.removalAmount = b.removalAmount ∧
+      b'.conditionCost = b.conditionCost ∧ b'.executionCost = b.executionCost ∧
+      b'.removalAmount = b.removalAmount ∧
       b'.additionAmount = b.additionAmount ∧ b'.reserveFee = b.reserveFee ∧
       b'.heightAbsolute = b.heightAbsolute ∧ b'.secondsAbsolute = b.secondsAbsolute ∧
       b'.beforeHeightAbsolute = b.beforeHeightAbsolute ∧ b'.beforeSecondsAbsolute = b.beforeSecondsAbsolute ∧
-      b'.spends.length = b.spends.length
+      b'.spends.length = b.spends.length ∧ b'.validatedSignature = b.validatedSignature ∧
+      List.Perm b'.aggSigUnsafe b.aggSigUnsafe ∧
+      ∃ sa s s' sc, b.spends = sa ++ s :: sc ∧ b'.spends = sa ++ s' :: sc ∧ sa.length = pre.length ∧
+        SpendEquiv { s with flags := clearFlag s.flags ELIGIBLE_FOR_FF } { s' with flags := clearFlag s'.flags ELIGIBLE_FOR_FF } ∧
+        ((env.mempool = false ∨ ∀ items, parseAll env.flags cs = .ok items → NoParentId items) → SpendEquiv s s') := by
+  obtain ⟨ps, hpb, hacc, hsum⟩ := (C01.C01_refines env sigOk _ L cc b st).mp h
+  simp only [parseBundle, ht, List.append_assoc, List.singleton_append] at hpb
+  obtain ⟨a, p, c, ha, hpx, hpc, rfl⟩ := (parseSpendList_split env.flags _ post pre ps).mp hpb
+  obtain ⟨p', hpx', he, hitems⟩ := parseSpend_conds_perm env.flags (rest := rest) (rest' := rest') hc hc' hp p hpx
+  have hps' : parseSpendList env.flags (pre ++ .pair parent (.pair ph (.pair amount (.pair conds' rest'))) :: post) =
+      some (a ++ p' :: c) := (parseSpendList_split env.flags _ post pre _).mpr ⟨a, p', c, ha, hpx', hpc, rfl⟩
+  have hb := BPerm.replace he a c
+  have hacc' := bundleAccepts_bperm env sigOk hsig L cc hb hacc
+  have hb1 : b = (bundleSummary env cc (a ++ p :: c)).1 := congrArg Prod.fst hsum
+  obtain ⟨a1, a2, a3, a4, a5, a6, a7, a8, a9, a10, a11, a12, a13⟩ := bundleSummary_bperm env cc hb
+  obtain ⟨sa, s, s', sc, e1, e2, e3, e4, e5⟩ := summary_spends_replace env cc a c he (hacc.2.2.2.1 p (by simp))
+  refine ⟨(bundleSummary env cc (a ++ p' :: c)).1, (bundleSummary env cc (a ++ p' :: c)).2,
+    (C01.C01_refines env sigOk _ L cc _ _).mpr
+      ⟨a ++ p' :: c, by simp only [parseBundle, ht', List.append_assoc, List.singleton_append, hps'], hacc', rfl⟩, ?_⟩
+  rw [hb1]
+  refine ⟨a1, a2, a3, a4, a5, a6, a7, a8, a9, a10, a11, a12, a13, sa, s, s', sc, e1, e2,
+    by rw [e3, parseSpendList_length _ _ _ ha], e4, ?_⟩
+  intro hno
+  refine e5 (hno.imp id (fun hn => hn p.items hitems))
+
+/-- **Acceptance does not depend on the order of the conditions of a spend** (both directions). -/
+theorem perm_conditions_bundle_accept_iff (env : Env) (sigOk : List (Bytes × Bytes) → Bool) (pre post : List Sexp)
+    (parent ph amount conds conds' rest rest' tl tl' t t' : Sexp) (cs cs' : List Sexp) (L cc : Nat)
+    (hsig : ∀ pairs pairs', List.Perm pairs pairs' → sigOk pairs = sigOk pairs')
+    (hc : sexpList conds = some cs) (hc' : sexpList conds' = some cs') (hp : List.Perm cs cs')
+    (ht : sexpList t = some (pre ++ [.pair parent (.pair ph (.pair amount (.pair conds rest)))] ++ post))
+    (ht' : sexpList t' = some (pre ++ [.pair parent (.pair ph (.pair amount (.pair conds' rest')))] ++ post)) :
+    (∃ r, parseSpends env sigOk (.pair t tl) L cc = .ok r) ↔ (∃ r, parseSpends env sigOk (.pair t' tl') L cc = .ok r) := by
+  constructor
+  · rintro ⟨⟨b, st⟩, h⟩
+    obtain ⟨b', st', h', _⟩ := perm_conditions_bundle env sigOk pre post parent ph amount conds conds' rest rest' tl tl' t t'
+      cs cs' L cc b st hsig hc hc' hp ht ht' h
+    exact ⟨_, h'⟩
+  · rintro ⟨⟨b, st⟩, h⟩
+    obtain ⟨b', st', h', _⟩ := perm_conditions_bundle env sigOk pre post parent ph amount conds' conds rest' rest tl' tl t' t
+      cs' cs L cc b st hsig hc' hc hp.symm ht' ht h
+    exact ⟨_, h'⟩
+
+/-! non-vacuity of the hypotheses of `perm_spends` / `perm_conditions_bundle`: a parent spend `exA` (creates a
+coin, reserves a fee, announces) and the spend `exB` of the coin it creates (ASSERT_EPHEMERAL, asserts the
+announcement); the bundle is accepted in both orders and with the conditions of `exA` reversed, and the
+cross-spend rules are really exercised (`exB` alone is rejected) -/
+
+section
+open ChiaModel.Rules
+
+example : ∃ b st, parseSpends envB (fun _ => true) (.pair (slist [exA, exB]) (.atom [])) 11000000000 0 = .ok (b, st) := by
+  have h : okB (parseSpends envB (fun _ => true) (.pair (slist [exA, exB]) (.atom [])) 11000000000 0) = true := by
+    decide +kernel
+  obtain ⟨⟨b, st⟩, h⟩ := okB_true h
+  exact ⟨b, st, h⟩
+example : sexpList (slist [exA, exB]) = some [exA, exB] ∧ sexpList (slist [exB, exA]) = some [exB, exA] ∧
+    List.Perm [exA, exB] [exB, exA] := ⟨rfl, rfl, List.Perm.swap _ _ _⟩
+example : ∀ pairs pairs' : List (Bytes × Bytes), List.Perm pairs pairs' → (fun _ => true) pairs = (fun _ => true) pairs' :=
+  fun _ _ _ => rfl
+-- the conclusion of `perm_spends` for this instance, cross-checked by evaluation
+example : okB (parseSpends envB (fun _ => true) (.pair (slist [exB, exA]) (.atom [])) 11000000000 0) = true := by
+  decide +kernel
+example : ∃ e, parseSpends envB (fun _ => true) (.pair (slist [exB]) (.atom [])) 11000000000 0 = .error e :=
+  okB_false (by decide +kernel)
+-- `perm_conditions_bundle`: `exA = (parent ph amount conds)`, `exA'` has the conditions reversed; pre = [], post = [exB]
+example : ∃ parent ph amount conds conds' rest rest' cs cs',
+    exA = .pair parent (.pair ph (.pair amount (.pair conds rest))) ∧
+    exA' = .pair parent (.pair ph (.pair amount (.pair conds' rest'))) ∧
+    sexpList conds = some cs ∧ sexpList conds' = some cs' ∧ List.Perm cs cs' ∧ cs ≠ cs' ∧
+    sexpList (slist [exA, exB]) = some ([] ++ [.pair parent (.pair ph (.pair amount (.pair conds rest)))] ++ [exB]) ∧
+    sexpList (slist [exA', exB]) = some ([] ++ [.pair parent (.pair ph (.pair amount (.pair conds' rest')))] ++ [exB]) :=
+  ⟨_, _, _, _, _, _, _, [cnd 51 [h32 2, [4]], cnd 52 [[1]], cnd 60 [[7]]], [cnd 60 [[7]], cnd 52 [[1]], cnd 51 [h32 2, [4]]],
+    rfl, rfl, rfl, rfl,
+    (List.Perm.swap _ _ _).trans ((List.Perm.cons _ (List.Perm.swap _ _ _)).trans (List.Perm.swap _ _ _)),
+    by decide, rfl, rfl⟩
+example : okB (parseSpends envB (fun _ => true) (.pair (slist [exA', exB]) (.atom [])) 11000000000 0) = true := by
+  decide +kernel
+end
 
 end ChiaModel.C06
